@@ -120,6 +120,7 @@ impl chain::Listen for Marker {
                 db,
                 idx: self.index_snapshot(),
             });
+            crate::conc::on_chain_event_boundary();
         }
     }
 
@@ -137,6 +138,7 @@ impl chain::Listen for Marker {
                 db,
                 idx: self.index_snapshot(),
             });
+            crate::conc::on_chain_event_boundary();
         }
     }
 }
@@ -152,6 +154,7 @@ pub struct TowerCtx<'a> {
     pub reachable: Reachable,
     pub tower_id: TowerId,
     pub db_path: PathBuf,
+    pub dbm_mutex_id: usize,
     pub poll: &'a mut dyn FnMut(),
 }
 
@@ -279,6 +282,7 @@ pub fn run_tower<R>(
         shutdown_trigger,
     ));
 
+    let dbm_mutex_id = dbm.id();
     let mut poll = || block_on(chain_monitor.poll_best_tip());
     let mut ctx = TowerCtx {
         api,
@@ -288,6 +292,7 @@ pub fn run_tower<R>(
         reachable: bitcoind_reachable,
         tower_id: TowerId(tower_pk),
         db_path,
+        dbm_mutex_id,
         poll: &mut poll,
     };
     f(&mut ctx)
